@@ -719,6 +719,30 @@ def correspondence(ctx):
         s, o = outs[0]
         ctx.sample({"stream": "dens", "dom": s["dom"], "radius": s["radius"], "y": o["y"].tolist()[:6]})
 
+    # ---- 4b. DensityFilter, LARGE radii (offsets whose squared length exceeds 255 / whose components exceed 15): the definition
+    #          on the real code only (brute-force cone-weighted average, range, constants) — outside the model stream because of
+    #          the size of the exact rational computation
+    for t in range(3 if quick else 15):
+        if t % 3 == 0:
+            dom, radius = [rng.randint(14, 18), rng.randint(13, 15), 0], rng.uniform(12.2, 16.0)
+        elif t % 3 == 1:
+            dom, radius = [rng.randint(36, 44), 1, 0], rng.uniform(16.5, 24.0)
+        else:
+            dom, radius = [11, rng.randint(10, 11), rng.randint(10, 11)], rng.uniform(10.1, 11.5)
+        nel = dom[0] * dom[1] * max(dom[2], 1)
+        spec = {"kind": "dens", "dom": dom, "radius": radius, "nonpadding": None, "x": gen_field(rng, nel, dyadic=False),
+                "g": gen_field(rng, nel, dyadic=False)}
+        r = call_impl(impl_dens, spec)
+        if r[0] == "err":
+            ctx.disagree("dens.large", spec, r[1], "ok", r[2])
+            continue
+        why = oracle_dens(spec, r[1][1])
+        ctx.evaluations += 1
+        ctx.distinct.add(("dens.large", str(dom), radius))
+        if why:
+            ctx.oracle_fail(why, {"op": "dens", **spec})
+        ctx.branch("dens.radius_large." + ("3d" if dom[2] else "2d"))
+
     # ---- 5. malformed ---------------------------------------------------------------------------
     reqs, impls, specs = [], [], []
     for t in range(12 if quick else 60):
